@@ -233,6 +233,17 @@ func constraintCases(r *rand.Rand) []hostile {
 			g := validBase(m, r)
 			cst.apply(g.M)
 			out = append(out, hostile{kind: "constraint:" + cst.name, body: g.body(), expect: cst.expect, names: cst.names, req: g.M})
+			// the same violation in a request that considers one alternative only (nothing to compare, eliminate or rank:
+			// short cuts for "trivial" decisions must not come before the validation)
+			if ch, ok := g.M["choseToMake"].([]interface{}); ok && len(ch) == 2 && ch[0] == "a0" && ch[1] == "a1" && cst.expect == 400 {
+				g1 := validBase(m, r)
+				cst.apply(g1.M)
+				g1.M["choseToMake"] = []interface{}{"a0"}
+				if cc, isS := mpOf(g1.M)["currentChoice"].(string); isS && cc != "a0" && cst.name != "unknownCurrentChoice" {
+					delete(mpOf(g1.M), "currentChoice")
+				}
+				out = append(out, hostile{kind: "constraint:" + cst.name + "/singleAlternative", body: g1.body(), expect: cst.expect, names: cst.names, req: g1.M})
+			}
 		}
 	}
 	return out
@@ -337,6 +348,28 @@ func extremeCases(r *rand.Rand, tier string) []hostile {
 		}
 	}
 	add("allZeroValues", g.M, 200)
+	// decimal ELECTRE weights whose normalised sum is not exactly 1, a pair that is concordant on every criterion, and
+	// distillation functions that vanish at credibility 1 (a = -b): the cut level must still make progress
+	for i, ks := range [][]float64{{0.1, 0.4, 0.2}, {0.3, 0.1, 0.3}, {0.7, 0.1, 0.1}, {0.1, 0.2, 0.3}} {
+		for j, ab := range [][2]float64{{-1, 1}, {-0.5, 0.5}, {-0.3, 0.3}} {
+			g = validBase("electreIII", r)
+			g.M["knownAlternatives"] = []interface{}{
+				M{"id": "a0", "criteria": M{"c0": 9.0, "c1": 8.0, "c2": 1.0}}, M{"id": "a1", "criteria": M{"c0": 5.0, "c1": 8.0, "c2": 3.0}}, M{"id": "a2", "criteria": M{"c0": 5.0, "c1": 2.0, "c2": 3.0}}}
+			g.M["choseToMake"] = []interface{}{"a0", "a1", "a2"}
+			mpOf(g.M)["electreCriteria"] = M{"c0": M{"k": ks[0], "q": M{"b": 1.0}, "p": M{"b": 2.0}}, "c1": M{"k": ks[1], "p": M{"b": 1.5}}, "c2": M{"k": ks[2]}}
+			mpOf(g.M)["electreDistillation"] = M{"a": ab[0], "b": ab[1]}
+			add(fmt.Sprintf("decimalWeightsSteepDistillation%d_%d", i, j), g.M, 200)
+		}
+	}
+	// a refused request must not keep anything the next ones need: two large Choquet requests that lack a capacity,
+	// then complete ones of the same size
+	for i := 0; i < 3; i++ {
+		q := bigChoquet(13, true)
+		delete(mpOf(q)["weights"].(M), "k3,k7,k11")
+		add(fmt.Sprintf("choquet13MissingCapacity%d", i), q, 400)
+	}
+	add("choquet13FullAfterRefused", bigChoquet(13, true), 200)
+	add("choquet13FullAfterRefusedAgain", bigChoquet(13, true), 200)
 	g = validBase("aspectEliminationHeuristic", r)
 	fn, p := generatedLevels("aspectEliminationHeuristic")
 	p["coefficient"] = 0.001
@@ -576,6 +609,13 @@ func c20Batch(c *caseCtx) {
 			}
 			if s.cpuSeconds()-cpu0 > 30 {
 				c.violate("no-answer", fmt.Sprintf("the request (%s) got no answer while the service burned more than 30 s of CPU time: %v", h.kind, res.err), detail())
+				return
+			}
+			// alive, idle, no answer: ask the runtime what the handler is doing (SIGQUIT = goroutine dump, the batch ends here)
+			if blocked, where := s.handlerBlocked(); blocked {
+				d := detail()
+				d["goroutine"] = where
+				c.violate("no-answer", fmt.Sprintf("the request (%s) got no answer: its handler goroutine is parked (not running, nothing else of the service is running either) - it waits for something that never comes", h.kind), d)
 				return
 			}
 			c.inconclusive(fmt.Sprintf("request %s got no answer (%v) but the process is alive and did not burn CPU", h.kind, res.err))
